@@ -109,10 +109,12 @@ func sfoField(f afero.File, field string) (string, error) {
 
 	var ret strings.Builder
 
-	_, err = io.CopyN(&ret, f, int64(idxEntry.DataLen)-1) // because null-terminated
+	// length counts terminating null of usual (utf8, 0x0204) strings,
+	// but "special mode" (utf8-S, 0x0004) strings are not terminated at all
+	_, err = io.CopyN(&ret, f, int64(idxEntry.DataLen))
 	if err != nil {
 		return "", fmt.Errorf("failed to read value: %w", err)
 	}
 
-	return ret.String(), nil
+	return strings.TrimRight(ret.String(), "\x00"), nil
 }
